@@ -96,6 +96,10 @@ def run(chk):
                 cfg2["all_sensors"] = QR().fit(b2.matrix_representation()).get_sensors().tolist()
             opt = impl.make_optimizer(cfg2)
             kws = impl.gqr_kws(cfg2)
+            if cfg2.get("kind") == "GQR" and rng.random() < (0.7 if not cfg2.get("constraint_option") else 0.2):
+                kws = dict(kws, n_sensors=n + int(rng.integers(1, 4)))     # GQR told a budget beyond the features: rejected, or consistent counts
+                nsens = None if rng.random() < 0.6 else nsens
+                chk.count("sspor:gqr-budget-beyond-features")
             model = SSPOR(basis=basis, optimizer=opt, n_sensors=nsens)
             impl.quiet(model.fit, X, seed=seed, quiet=True, **kws)
             Bm = np.array(model.basis_matrix_)
@@ -142,7 +146,9 @@ def run(chk):
                         getattr(model, op[0])(op[1])
                 except Exception as e:
                     chk.count("sspor-step-rejected:" + impl.exc_class(e))
-                    continue
+                    if op[0] == "fit":
+                        continue          # a rejected fit leaves the model unusable until the next successful fit (no property speaks about it)
+                    hist[-1] = hist[-1] + ["rejected"]
                 try:
                     nn = len(model.ranked_sensors_)
                     allh = [int(i) for i in model.all_sensors]
@@ -204,6 +210,14 @@ def run(chk):
             except Exception as e:
                 chk.count("update-rejected:" + impl.exc_class(e))
                 continue
+            # a rejected request in between (too many sensors) is caught by the caller: count and selection must still agree
+            try:
+                impl.quiet(model.update_sensors, quiet=True, n_sensors=n + int(rng.integers(1, 4)))
+            except Exception:
+                selr, nsr = [int(i) for i in model.selected_sensors], int(model.n_sensors)
+                if selr != sel2 or nsr != ns2:
+                    chk.violation("impl", "sspoc-selection-invalid", f"a rejected update_sensors(n_sensors > n_features) left n_sensors={nsr} with selection {selr} "
+                                  f"(before: {ns2}, {sel2})", {**case, "observed": selr})
             case2 = {**case, "then": {k: (int(v) if k == "n_sensors" else (v if k == "threshold" else "(X, y)")) for k, v in upd.items()}}
             chk.case(case2)
             if len(set(sel2)) != len(sel2) or any(i < 0 or i >= n for i in sel2) or len(sel2) != ns2:
